@@ -2229,8 +2229,16 @@ func CreateCertificateRequest(rand io.Reader, template *CertificateRequest, sign
 		digest = h.Sum(nil)
 	}
 
+	var signerOpts crypto.SignerOpts = hashFunc
+	if template.SignatureAlgorithm.isRSAPSS() {
+		signerOpts = &rsa.PSSOptions{
+			SaltLength: rsa.PSSSaltLengthEqualsHash,
+			Hash:       crypto.Hash(hashFunc),
+		}
+	}
+
 	var signature []byte
-	signature, err = signer.Sign(rand, digest, hashFunc)
+	signature, err = signer.Sign(rand, digest, signerOpts)
 	if err != nil {
 		return
 	}
